@@ -1,6 +1,7 @@
 #!/bin/sh
 # usage: try_mutant.sh <dir with patch.diff + demo.py> <PROPERTY> [more properties...]
 # Applies the change to /repo, runs the demonstration and the quick checks, and undoes the change.
+mkdir -p /tmp/x
 D="$1"; shift
 cd /repo || exit 2
 if ! git diff --quiet; then echo "repo not clean"; exit 2; fi
